@@ -32,7 +32,8 @@ ASSUMPTIONS = [
     "if the library's resolution entry points are renamed the internal counters are reported as missing and only the user-hook counters decide",
 ]
 REPORT_COUNTERS = ["programs", "second_pass_calls_checked", "second_pass_after_register_checked", "warm_user_hook_calls",
-                   "warm_internal_calls", "entry_paths_nested", "resolve_calls_checked", "watch_points", "introspection_between_calls"]
+                   "warm_internal_calls", "entry_paths_nested", "resolve_calls_checked", "watch_points", "introspection_between_calls",
+                   "parent_used_between_calls"]
 
 TOOL = 3
 WATCH = {}
@@ -69,7 +70,8 @@ def plan(tier):
     n = 800 if tier == "quick" else 20000
     return {"cases": n, "params": {}, "timeout_s": 1200 if tier == "quick" else 7200,
             "min": {"second_pass_calls_checked": 2_000, "second_pass_after_register_checked": 1_000,
-                    "warm_user_hook_calls": 5_000, "warm_internal_calls": 20_000, "entry_paths_nested": 500}}
+                    "warm_user_hook_calls": 5_000, "warm_internal_calls": 20_000, "entry_paths_nested": 500,
+                    "parent_used_between_calls": 300}}
 
 
 def _gen_t(rng, classes):
@@ -101,6 +103,8 @@ def gen_case(rng, params, idx):
     extra = {"mid": 100, "pos": [{"n": f"a{j}", "t": _gen_t(rng, classes)} for j in range(npos)], "kw": [],
              "prio": rng.choice([0, 1]), "kind": "leaf"}
     spec = {"hier": hier, "methods": methods, "npos": npos, "late": extra}
+    if rng.random() < 0.25:
+        spec["mode"] = "linkback_all"      # a linkback copy is warmed up before its parent is ever used
     vals = gen.values_for(hier, builtin=False) + [["v", 1], ["v", 2], ["v", 7], ["v", "s"], ["v", True], ["v", 2.5]]
     cg = gen.CallGen(spec, vals)
     spec["calls"] = [cg.call(rng, p_kw=0) for _ in range(12)]
@@ -145,6 +149,13 @@ def check_case(spec, res):
                 except Exception:  # noqa: BLE001
                     pass
                 res.count("introspection_between_calls")
+                base = getattr(prog, "base", None)
+                if base is not None:
+                    # using the *parent* (for the first time, then again) changes nobody's set of methods
+                    from ..observe import outcome
+                    pa = prog.args(spec["calls"][i])
+                    outcome(lambda: base.dispatch(*pa[0], **pa[1]), prog.vf, prog.names)
+                    res.count("parent_used_between_calls")
             call = spec["calls"][i]
             args = prog.args(call)
             before = _snap(env)
